@@ -21,8 +21,15 @@ pub fn is_map(item: i32) -> bool {
 
 #[derive(Debug, Clone, Serialize, Deserialize, PartialEq, Eq)]
 pub enum Prog {
-    /// Set value item `item` (0..=2).
-    Set { item: i32, value: i32 },
+    /// Set value item `item` (0..=2). With `peek`: `set_value(..).and_then_contextual(|agent, _| ..)` whose
+    /// continuation reads value item `peek` straight from the agent when it is applied and records what it saw: the
+    /// resumed part of the handler, which must see what the handlers triggered by the set have done.
+    Set {
+        item: i32,
+        value: i32,
+        #[serde(default, skip_serializing_if = "Option::is_none")]
+        peek: Option<i32>,
+    },
     /// Update key `key` of map item `item` (3..=4).
     Update { item: i32, key: i32, value: i32 },
     Remove { item: i32, key: i32 },
@@ -57,7 +64,7 @@ pub enum Prog {
 #[derive(Form, Debug, Clone, PartialEq, Eq)]
 pub enum Ins {
     #[form(tag = "set")]
-    Set { item: i32, value: i32 },
+    Set { item: i32, value: i32, peek: i32 },
     #[form(tag = "upd")]
     Upd { item: i32, key: i32, value: i32 },
     #[form(tag = "rem")]
@@ -127,7 +134,7 @@ impl Prog {
 
     pub fn flatten(&self, out: &mut Vec<Ins>) {
         match self {
-            Prog::Set { item, value } => out.push(Ins::Set { item: *item, value: *value }),
+            Prog::Set { item, value, peek } => out.push(Ins::Set { item: *item, value: *value, peek: peek.unwrap_or(-1) }),
             Prog::Update { item, key, value } => out.push(Ins::Upd { item: *item, key: *key, value: *value }),
             Prog::Remove { item, key } => out.push(Ins::Rem { item: *item, key: *key }),
             Prog::Clear { item } => out.push(Ins::Clr { item: *item }),
@@ -172,7 +179,7 @@ impl Prog {
         let ins = code.get(*pos)?.clone();
         *pos += 1;
         Some(match ins {
-            Ins::Set { item, value } => Prog::Set { item, value },
+            Ins::Set { item, value, peek } => Prog::Set { item, value, peek: if peek >= 0 { Some(peek) } else { None } },
             Ins::Upd { item, key, value } => Prog::Update { item, key, value },
             Ins::Rem { item, key } => Prog::Remove { item, key },
             Ins::Clr { item } => Prog::Clear { item },
@@ -382,7 +389,10 @@ fn gen_leaf(rng: &mut Rng, a: &mut Alloc, cfg: &GenCfg) -> Prog {
                 _ => Prog::Transform { item, key, value: if rng.chance(1, 2) { None } else { Some(a.value()) } },
             }
         } else {
-            Prog::Set { item, value: a.value() }
+            // One set in forty is followed by a continuation that looks at a later value item (the handlers of an item
+            // only modify later items: that is where the effects of the triggered handlers show).
+            let peek = if item + 1 < N_VALUES as i32 && rng.chance(1, 40) { Some(rng.range_i(item as i64 + 1, N_VALUES as i64 - 1) as i32) } else { None };
+            Prog::Set { item, value: a.value(), peek }
         }
     } else if x < 85 {
         Prog::Get { item: rng.range_i(0, N_ITEMS as i64 - 1) as i32 }
